@@ -1,12 +1,14 @@
 use crate::engine::PropFn;
 
 pub mod c14;
+pub mod c15;
 pub mod c17;
 pub mod c18;
 
 pub fn lookup(id: &str) -> Option<PropFn> {
     Some(match id {
         "C14" => c14::run,
+        "C15" => c15::run,
         "C17" => c17::run,
         "C18" => c18::run,
         _ => return None,
